@@ -61,7 +61,8 @@ def main():
             ownline = next((l for l in lines if l.startswith(own + " ")), "" if mode == "all" else r.stdout[-200:] + r.stderr[-200:])
             res[d] = ownline
             print(f"{os.path.basename(d)} own={own}: {ownline}" + (f"  fired={fired}" if mode == "all" else ""), flush=True)
-    ts = [threading.Thread(target=work, args=(i,)) for i in range(n)]
+    base = int(os.environ.get("LANE_BASE", "0"))  # first lane number (two matrices at once use different lanes)
+    ts = [threading.Thread(target=work, args=(base + i,)) for i in range(n)]
     for t in ts: t.start()
     for t in ts: t.join()
     miss = [d for d, l in res.items() if len(l.split()) < 2 or l.split()[1] != "1"]
